@@ -155,6 +155,13 @@ func randIP(r *rand.Rand, v6 bool) net.IP {
 		n = 16
 	}
 	b := make(net.IP, n)
+	switch r.Intn(6) {
+	case 0: // the unspecified address (what non-Service flows carry as cluster IP): 0.0.0.0 and :: share their leading bytes
+		return b
+	case 1: // an IPv4 address and an IPv6 address that agree on their first four bytes, the rest of the latter being zero
+		copy(b, []byte{0x20, 1, 0x0d, byte(0xb8 + r.Intn(2))})
+		return b
+	}
 	r.Read(b)
 	if v6 {
 		b[0] = 0x20 // keep clear of IPv4-mapped forms, whose text form is an IPv4 address
@@ -219,6 +226,9 @@ func randRecord(r *rand.Rand, v6 bool) (entities.Record, recAbs) {
 		elems = append(elems, entities.NewStringInfoElement(ie(n, registry.AntreaEnterpriseID), v))
 		a.Strs[n] = sb(v)
 	}
+	// two elements the schemas have no field for: they are skipped wherever they stand, and only they
+	elems = append(elems, entities.NewUnsigned8InfoElement(ie("flowEndReason", 0), uint8(r.Intn(6))),
+		entities.NewUnsigned8InfoElement(ie("ipClassOfService", 0), uint8(r.Intn(256))))
 	r.Shuffle(len(elems), func(i, j int) { elems[i], elems[j] = elems[j], elems[i] })
 	return entities.NewDataRecordFromElements(256, elems, true), a
 }
